@@ -144,9 +144,19 @@ func init() {
 				for _, b := range fn.Blocks {
 					for _, in := range b.Instrs {
 						if phi, ok := in.(*ssa.Phi); ok && phi.Comment == "totalStakedRewardWeight" {
+							// edges of the accumulator phi, looking through the merge phi that a `continue` in an
+							// index loop introduces at the post block
+							var edges []ssa.Value
 							for _, ed := range phi.Edges {
+								if p2, ok := ed.(*ssa.Phi); ok && p2 != phi {
+									edges = append(edges, p2.Edges...)
+								} else {
+									edges = append(edges, ed)
+								}
+							}
+							for _, ed := range edges {
 								t := fa.Term(ed)
-								if t.IsCall("math.LegacyDec.Add") && t.Args[0].Eq(fa.Term(phi)) && t.Args[1].IsCall("math.LegacyDec.QuoInt") {
+								if t.IsCall("math.LegacyDec.Add") && t.Args[1].IsCall("math.LegacyDec.QuoInt") && (t.Args[0].Eq(fa.Term(phi)) || t.Args[0].Op == "phi") {
 									okSum = true
 								}
 							}
